@@ -104,15 +104,17 @@ def run(prop, tier, timeout=None, workers=16):
         res = list(tp.map(_one, [(modname, n, fn, fixed, timeout) for n, fn, fixed in names]))
     # cross-validate confirmed shards concretely where the residual space is small
     xval = {}
-    conf = [r for r in res if r['verdict'] == 'confirmed' and r['function'] != witness]
+    conf = [r for r in res if r['verdict'] in ('confirmed', 'inconclusive') and r['function'] != witness]
     with ThreadPoolExecutor(max_workers=workers) as tp:
         for name, out in tp.map(_xval, [(modname, r['shard']) for r in conf]):
             xval[name] = out
     for r in res:
         out = xval.get(r['shard'])
         if out and out.get('false_at'):
+            was = r['verdict']
             r['verdict'] = 'counterexample'
-            r['cex'] = ("condition false on plain CPython although CrossHair reported `Confirmed` (model discrepancy)",
+            r['cex'] = ("condition false on plain CPython although CrossHair reported `Confirmed` (model discrepancy)"
+                        if was == 'confirmed' else "condition false on plain CPython (CrossHair itself was inconclusive on this shard)",
                         ', '.join(str(v) for v in out['false_at'][0]))
     findings = []
     witness_ok = None
